@@ -140,9 +140,9 @@ def construct (b : BaseDt) (text : Str) (strict : Bool) : Option (R LeafV) :=
   if outOfDomain b.kind text then some (.error .Unsupported) else constructCore b text strict
 
 /-- `datatype_factory(datatype, value, version, validation_level)` for a `str` value.
-    `d` is read exactly where the code reads a default: the TOLERANT fallback `factories['ST'](value)`
-    is built *without* a validation level (factories.py:105). -/
-def factory (base : List BaseDt) (d : Defaults) (dt : String) (text : Str) (strict : Bool) : R LeafV :=
+    No process-wide default is read: the TOLERANT fallback `factories['ST'](value, validation_level=…)`
+    carries the caller's level (fix of finding D12), so the function takes no `Defaults` argument. -/
+def factory (base : List BaseDt) (dt : String) (text : Str) (strict : Bool) : R LeafV :=
   match findBase base dt with
   | none => .error .InvalidDataType
   | some b =>
@@ -153,7 +153,7 @@ def factory (base : List BaseDt) (d : Defaults) (dt : String) (text : Str) (stri
       else match findBase base "ST" with
         | none => .error .CrashKeyError
         | some st =>
-          match construct st text d.strict with
+          match construct st text strict with
           | some r => r
           | none => .error .ValueError
 
